@@ -35,7 +35,7 @@ TakeN(s, k) == SubSeq(s, 1, k)
 DropN(s, k) == SubSeq(s, k + 1, Len(s))
 LastOf(s) == s[Len(s)]
 FrontOf(s) == SubSeq(s, 1, Len(s) - 1)
-NoDup(s) == \A i, j \in DOMAIN s : i # j => s[i] # s[j]
+NoDup(s) == Cardinality(SeqRange(s)) = Len(s)
 
 MkVal(kind, items, inner) == [kind |-> kind, items |-> items, inner |-> inner]
 
